@@ -495,6 +495,18 @@ impl Storm {
                 let new_user = self.r.gen_range(0..w.users.len());
                 let na = w.users[new_user].kp.pubkey();
                 let p = w.chain.payer.pubkey();
+                if self.r.gen_bool(0.4) {
+                    // the variant whose new account lives at an address derived from the new owner
+                    let idx = (self.steps % 60_000) as u16;
+                    let third = pick(&mut self.r, &[None, Some(0u16), Some(7), Some(9_999), Some(10_000), Some(u16::MAX)]);
+                    let (i, nkey) = ix::transfer_account_pda(gk, w.accts[a].key, auth.pubkey(), p, na, w.fee_wallet.pubkey(), idx, third);
+                    let o = w.exec(m, &[i], &[&auth]).await;
+                    m.r.count(if o.ok() { "storm.account_transfers_to_derived_address_accepted" } else { "storm.account_transfers_to_derived_address_refused" });
+                    if o.ok() {
+                        w.accts.push(AcctD { key: nkey, group: self.g, user: new_user });
+                    }
+                    return o;
+                }
                 let i = ix::transfer_account(gk, w.accts[a].key, nk.pubkey(), auth.pubkey(), p, na, w.fee_wallet.pubkey());
                 let o = w.exec(m, &[i], &[&auth, &nk]).await;
                 if o.ok() {
@@ -508,11 +520,27 @@ impl Storm {
                 let o = w.exec(m, &[i], &[&auth]).await;
                 if o.ok() {
                     // keep indices stable: replace the closed account by a fresh one of the same user
+                    // (sometimes created at an address derived from its owner, under the monitors)
                     let u = w.accts[a].user;
-                    let na = w.add_account(self.g, u).await;
-                    let moved = w.accts.pop().unwrap();
-                    w.accts[a] = moved;
-                    let _ = na;
+                    let mut replaced = false;
+                    if self.r.gen_bool(0.5) {
+                        let ukp = w.user_kp(u);
+                        let idx = (self.steps % 60_000) as u16;
+                        let third = pick(&mut self.r, &[None, Some(3u16), Some(9_999), Some(10_000)]);
+                        let (i, key) = ix::account_init_pda(gk, ukp.pubkey(), p, idx, third);
+                        let oi = w.exec(m, &[i], &[&ukp]).await;
+                        m.r.count(if oi.ok() { "storm.accounts_created_at_derived_address" } else { "storm.account_creations_at_derived_address_refused" });
+                        if oi.ok() {
+                            w.accts[a] = AcctD { key, group: self.g, user: u };
+                            replaced = true;
+                        }
+                    }
+                    if !replaced {
+                        let na = w.add_account(self.g, u).await;
+                        let moved = w.accts.pop().unwrap();
+                        w.accts[a] = moved;
+                        let _ = na;
+                    }
                 }
                 o
             }
